@@ -704,7 +704,9 @@ class Exec(Path):
         elif isinstance(target, ast.Attribute):
             obj = self.eval(target.value)
             h = self.deref(obj)
-            if isinstance(h, HObj):
+            if isinstance(h, HObj) and h.ns_dict is not None:
+                self.dict_set(self.heap[h.ns_dict.rid], VStr(target.attr), v)
+            elif isinstance(h, HObj):
                 h.fields[target.attr] = v
             else:
                 raise Unsupported(f"attribute store on {obj!r}")
@@ -854,6 +856,11 @@ class Exec(Path):
             return VModule(dotted)
         if isinstance(obj, VRef):
             h = self.heap[obj.rid]
+            if isinstance(h, HObj) and h.ns_dict is not None:
+                d = self.heap[h.ns_dict.rid]
+                if self.pure or self.branch(self.dict_has(d, VStr(attr))):
+                    return self.dict_get(d, VStr(attr))
+                self.raise_("AttributeError", VStr(attr))
             if isinstance(h, HObj):
                 if attr in h.fields:
                     return h.fields[attr]
@@ -1395,6 +1402,24 @@ class Exec(Path):
                 self.restore_env(sv)
                 return v
             return self.alloc(HList(rule=(ln, rule)))
+        if len(n.generators) == 2 and not n.generators[0].ifs and not n.generators[1].ifs \
+                and isinstance(n.generators[0].target, ast.Name) and isinstance(n.generators[1].iter, ast.Name) \
+                and n.generators[1].iter.id == n.generators[0].target.id:
+            # [f(x) for sub in L for x in sub]  ==  [f(x) for x in flatten(L)]
+            outer = self.eval(n.generators[0].iter)
+            oh = self.deref(self.unbox(outer) if isinstance(outer, VBox) else outer)
+            if isinstance(oh, HList) and oh.items is None:
+                flat = self.engine.uf("flatten", PVSEQ, PVSEQ)(self.list_seq(oh))
+                g = n.generators[1]
+                ln = z3.Length(flat)
+
+                def rule2(i, g=g, n=n, flat=flat):
+                    sv = dict(self.env)
+                    self.assign(g.target, VBox(flat[i]))
+                    v = self.eval(n.elt)
+                    self.restore_env(sv)
+                    return v
+                return self.alloc(HList(rule=(ln, rule2)))
         if len(n.generators) == 1 and len(n.generators[0].ifs) == 1:
             g = n.generators[0]
             tgt, cond = g.target, g.ifs[0]
@@ -1459,9 +1484,13 @@ class Exec(Path):
         kwargs = {}
         for kw in n.keywords:
             if kw.arg is None:
-                d = self.deref(self.eval(kw.value))
-                if not isinstance(d, HDict) or d.sym is not None:
-                    raise Unsupported("** of symbolic dict")
+                dv = self.eval(kw.value)
+                d = self.deref(dv)
+                if not isinstance(d, HDict):
+                    raise Unsupported("** of non-dict")
+                if d.sym is not None:
+                    kwargs["**"] = dv          # symbolic mapping: only callees that take **kwargs alone accept it
+                    continue
                 for k, v in d.over.items():
                     if v is not DELETED:
                         kwargs[k] = v
@@ -1529,6 +1558,13 @@ class Exec(Path):
         a = info.node.args
         names = [x.arg for x in a.posonlyargs + a.args]
         bound = {}
+        if "**" in kwargs:
+            if a.kwarg is None or len(kwargs) > 1 or len(args) > len(names) or len(names) - len(args) > 0:
+                raise Unsupported("** of a symbolic dict into a callee with named parameters")
+            for nme, v in zip(names, args):
+                bound[nme] = v
+            bound[a.kwarg.arg] = kwargs["**"]
+            return bound
         if len(args) > len(names) and a.vararg is None:
             self.raise_("TypeError")
         for nme, v in zip(names, args):
@@ -1607,8 +1643,19 @@ class Exec(Path):
         self.func_stack.append({"info": info, "contract": c, "loops": []})
         self.frames.append(dict(bound))
         try:
+            if c.setup and c.extra.get("setup_at_calls"):
+                c.setup(self, self.env)
+            if c.variants:
+                vnames = {k for var in c.variants for k in var if not k.startswith("_")}
+                for k, v in list(bound.items()):
+                    if isinstance(v, VBox) and k in vnames:
+                        bound[k] = self.env[k] = self.unbox(v)
             for j, r in enumerate(c.requires):
                 props, lab, expr = self._clause(r, self.func_stack[-1])
+                if lab == "env":
+                    # a statement about the environment (ghost state created for this call), not about the arguments
+                    self.assume(self.eval_contract_expr(expr))
+                    continue
                 self.oblige(f"call {info.qualname}:{lab or j}", "pre@call", self.eval_contract_expr(expr), props,
                             note=f"line {getattr(self, 'cur_line', '?')}")
             topc = self.func_stack[0]["contract"]
@@ -1620,11 +1667,6 @@ class Exec(Path):
                     self.oblige(f"at call {info.name}:{lab}", "call-site", self.eval_contract_expr(expr), props,
                                 note=f"line {getattr(self, 'cur_line', '?')}")
             old = self.snapshot()
-            if c.variants:
-                vnames = {k for var in c.variants for k in var if not k.startswith("_")}
-                for k, v in list(bound.items()):
-                    if isinstance(v, VBox) and k in vnames:
-                        bound[k] = self.env[k] = self.unbox(v)
             vi = c.select_variant(self, bound)
             # exceptional outcomes
             for exc_name, spec in c.raises.items():
@@ -1646,6 +1688,10 @@ class Exec(Path):
             # normal outcome
             for m in c.modifies:
                 self.havoc_target(m)
+            for fld, ft in c.extra.get("creates", {}).items():
+                selfobj = self.deref(bound.get("self"))
+                if isinstance(selfobj, HObj):
+                    selfobj.fields[fld] = self.make_symbolic(f"{info.name}_{fld}", ft)
             result = self.make_symbolic("result_" + info.name, c.returns) if c.returns else VNone()
             self.env["result"] = result
             saved_old = self.old
@@ -1683,6 +1729,9 @@ class Exec(Path):
                         and " " not in n.value and "%" not in n.value:
                     seen.add(n.value)
                     out.append(VStr(n.value))
+                elif isinstance(n, ast.Attribute) and n.attr not in seen and isinstance(n.value, ast.Name) and n.value.id == "args":
+                    seen.add(n.attr)
+                    out.append(VStr(n.attr))
             c = top["contract"]
             if c is not None:
                 for g, gt in c.ghost.items():
